@@ -50,6 +50,10 @@ impl Vm {
                     self.stack.clear();
                     self.bp = 0;
                     self.ep = usize::MAX;
+                    // Give the collector the chance it gets after a completed
+                    // evaluation; otherwise a session of failing evaluations never
+                    // collects and its heap grows without bound.
+                    self.run_gc();
                     return Err(e);
                 }
             }
